@@ -196,3 +196,11 @@ package posix
 //@ func (*Posix) HeadObject
 //@   let md = result("posix.Posix.loadObjectMetaData", 0)
 //@   at-return {C01} [headers-answered-as-read] when err == nil && called("posix.Posix.loadObjectMetaData") :: ensures ret0.ContentType == md.ContentType && ret0.ContentEncoding == md.ContentEncoding && ret0.ContentDisposition == md.ContentDisposition && ret0.ContentLanguage == md.ContentLanguage && ret0.CacheControl == md.CacheControl && ret0.ExpiresString == md.Expires
+
+// ---- C10: completing a multipart upload replaces the object, so the lock decision for exactly that object comes
+// first (taken here because the handler does not take it) and nothing of the upload is assembled or published before.
+//@ func (*Posix) CompleteMultipartUpload
+//@   let decided = called("auth.CheckObjectAccess") && result("auth.CheckObjectAccess", 0) == nil
+//@   at-call auth.CheckObjectAccess {C10} [lock-decision-for-this-object] requires $1 == old(*input.Bucket) && len($3) == 1 && $3[0].Key != nil && *$3[0].Key == old(*input.Key) && $5 == iface(p)
+//@   at-call posix.Posix.openTmpFile {C10} [assembled-only-after-the-lock-decision] requires decided
+//@   at-call posix.tmpfile.link {C10} [published-only-after-the-lock-decision] requires decided
